@@ -421,4 +421,19 @@ def tarRun (unique : Bool) : Scratch → List (Nat × Nat × TarOp) → List (Na
     | (d', some r) => (c, r) :: tarRun unique d' rest
     | (d', none)   => tarRun unique d' rest
 
+/-! ### the sandbox of a pilot (`Session._get_pilot_sandbox`)
+
+The session keeps what it computed once: `cache` maps a pilot uid to the sandbox it was given; a sandbox is
+the pair (session sandbox, directory name), the directory of pilot `pid` being `pid`. -/
+
+def pilotSandbox (sess : Nat) (cache : List (Nat × (Nat × Nat))) (pid : Nat) : (Nat × Nat) × List (Nat × (Nat × Nat)) :=
+  match cache.find? (fun e => e.1 = pid) with
+  | some e => (e.2, cache)
+  | none   => ((sess, pid), cache ++ [(pid, (sess, pid))])
+
+/-- the pilots of a session ask for their sandboxes in any order, any number of times -/
+def pilotSandboxes (sess : Nat) : List (Nat × (Nat × Nat)) → List Nat → List (Nat × Nat)
+  | _,     []          => []
+  | cache, pid :: rest => (pilotSandbox sess cache pid).1 :: pilotSandboxes sess (pilotSandbox sess cache pid).2 rest
+
 end RPVerif.Staging
